@@ -288,7 +288,7 @@ class Tree:
                 open(os.path.join(od, ".done"), "w").close()
         return [os.path.join(od, s[:-2] + ".o") for s in LIB_SOURCES]
 
-    def variant_object(self, flavour, source, tag, config_overrides, extra_cflags=""):
+    def variant_object(self, flavour, source, tag, config_overrides, extra_cflags="", hashes=None):
         """One library source compiled for `flavour` against a copy of the
         generated headers whose config.h has `config_overrides` applied
         (and/or with extra compiler flags, e.g. another instruction set)."""
@@ -302,8 +302,11 @@ class Tree:
             if not os.path.exists(out):
                 if not os.path.exists(os.path.join(vd, ".done")):
                     shutil.rmtree(vd, ignore_errors=True)
-                    shutil.copytree(gd, vd)
-                    apply_config_overrides(os.path.join(vd, "config.h"), config_overrides or {})
+                    if hashes is not None:
+                        gen_headers(vd, hashes=hashes, config_overrides=config_overrides or None)
+                    else:
+                        shutil.copytree(gd, vd)
+                        apply_config_overrides(os.path.join(vd, "config.h"), config_overrides or {})
                     open(os.path.join(vd, ".done"), "w").close()
                 compile_objects(od, vd, cc, cflags, sources=[source])
         return out
